@@ -11,7 +11,7 @@ def ob(name, nop, lowbits, **kw):
     o = dict(name=name, src='h_queue.c', defs=['NOP=%d' % nop, 'LOWBITS=%d' % lowbits], units=['src/task.c'], incl=['src/echsd.c'],
              replay_units='all', replay_extra_units=['src/logger.c'], unwind=max(nop, 4) + 2,
              unwindset={'put_task_slot.*': (1 << lowbits) + 18, 'get_task_slot.*': 18, 'make_task_pool.*': 5, 'memset.*': 4, 'strlen.*': 10, 'strdup.*': 10, 'strcpy.*': 10, 'memcpy.*': 10},
-             solver='cadical', timeout=1200, mem_gb=16, object_bits=12, checks=['--bounds-check', '--pointer-check'], restrict_fp=FP, replace_calls={'add_chkpnt': 'env_add_chkpnt', 'make_chld': 'env_make_chld', 'free_chld': 'env_free_chld', 'make_task_pool': 'env_make_task_pool', 'calloc': 'env_calloc', 'free': 'env_free'}, replace_calls2={'free_real': 'free'},
+             solver='minisat', slice_formula=True, timeout=800, mem_gb=8, object_bits=12, checks=['--bounds-check', '--pointer-check'], restrict_fp=FP, replace_calls={'add_chkpnt': 'env_add_chkpnt', 'make_chld': 'env_make_chld', 'free_chld': 'env_free_chld', 'make_task_pool': 'env_make_task_pool', 'calloc': 'env_calloc', 'free': 'env_free'}, replace_calls2={'free_real': 'free'},
              allow_nobody=['snprintf', 'lseek', 'echs_log', 'echs_errlog', 'obint_name', 'dt_strf', 'free_strlst'],
              enc=['_inject_task1', '_eject_task1', 'get_task', 'make_task', 'free_task', 'put_task_slot', 'get_task_slot', 'echs_task_owned_by_p', 'free_echs_task', 'echs_task_rset_ownr'],
              sym='the three oids, the operation history (kind, which oid, which user), root vs per-user daemon',
@@ -21,16 +21,16 @@ def ob(name, nop, lowbits, **kw):
     return o
 OBLIGATIONS = [
     ob('queue_op2_oid2', 2, 4, defs=['NOP=2', 'NOID=2', 'LOWFIX'], bounds='2 operations, 2 oids with fixed distinct low 4 bits and symbolic upper 60 bits, 2 users'),
-    ob('queue_op3_oid2', 3, 4, defs=['NOP=3', 'NOID=2', 'LOWFIX'], bounds='3 operations, 2 oids with fixed distinct low 4 bits and symbolic upper 60 bits, 2 users', timeout=1800, mem_gb=30),
-    ob('queue_op3', 3, 4, defs=['NOP=3', 'LOWFIX'], bounds='3 operations, 3 oids with fixed distinct low 4 bits (slots 1,4,7) and symbolic upper 60 bits, 2 users', tiers=('thorough',), timeout=3400, mem_gb=40),
+    ob('queue_op3_oid2', 3, 4, defs=['NOP=3', 'NOID=2', 'LOWFIX'], bounds='3 operations, 2 oids with fixed distinct low 4 bits and symbolic upper 60 bits, 2 users', timeout=3000, mem_gb=8, tiers=('thorough',)),
+    ob('queue_op3', 3, 4, defs=['NOP=3', 'LOWFIX'], bounds='3 operations, 3 oids with fixed distinct low 4 bits (slots 1,4,7) and symbolic upper 60 bits, 2 users', timeout=800, mem_gb=6),
     ob('queue_op4', 4, 4, defs=['NOP=4', 'LOWFIX'], bounds='4 operations, same oids', tiers=('thorough',), timeout=3400, mem_gb=30),
     ob('queue_op3_anylow', 3, 4, bounds='3 operations, 3 oids differing within their low 4 bits (no table growth)', tiers=('thorough',), timeout=3400, mem_gb=40),
-    ob('table_growth_32_64', 1, 4, defs=['NOP=1', 'RESIZE=5', 'TABMAX=64'], bounds='two oids sharing their low 4..5 bits: table grows to 32..64 slots', timeout=1800, mem_gb=12,
+    ob('table_growth_32_64', 1, 4, defs=['NOP=1', 'RESIZE=5', 'TABMAX=64'], bounds='two oids sharing their low 4..5 bits: table grows to 32..64 slots', timeout=800, mem_gb=6,
        unwindset={'put_task_slot.*': 20, 'get_task_slot.*': 18, 'make_task_pool.*': 5, 'memset.*': 4}),
     ob('table_growth', 1, 4, defs=['NOP=1', 'RESIZE=7', 'TABMAX=256'], bounds='two oids sharing their low 4..7 bits: table grows to 32..256 slots', timeout=3400, mem_gb=40, tiers=('thorough',),
        unwindset={'put_task_slot.*': 20, 'get_task_slot.*': 18, 'make_task_pool.*': 5, 'memset.*': 4}),
     dict(name='listing_is_the_callers', src='h_http.c', defs=[], units=['src/task.c'], incl=['src/echsd.c'], replay_units='all', replay_extra_units=['src/logger.c'],
-         unwind=6, unwindset={'sym_load.*': 8, 'strlen.*': 4}, solver='cadical', timeout=900, mem_gb=12, object_bits=12, checks=['--bounds-check', '--pointer-check'],
+         unwind=6, unwindset={'sym_load.*': 8, 'strlen.*': 4}, solver='minisat', slice_formula=True, timeout=600, mem_gb=4, object_bits=12, checks=['--bounds-check', '--pointer-check'],
          replace_calls={'echs_http_send_sched': 'rec_send_sched', 'ndtr_t_NEDTRIE_FIND': 'rec_trie_find', 'add_chkpnt': 'env_add_chkpnt'},
          allow_nobody=['echs_log', 'echs_errlog', 'lseek', 'dt_strf', 'free_strlst'],
          enc=['cmd_http', 'echs_task_owner', 'echs_task_owned_by_p'], sym='peer uid, requested uid (any or none), owners of the two queued tasks, /queue or /sched',
